@@ -23,3 +23,14 @@ mod unbond;
 mod convert;
 #[cfg(test)]
 mod testing;
+
+/// Verification hooks (add-only, compiled only with `--cfg kryptonitedao_krp_staking_contracts_verif`).
+#[cfg(kryptonitedao_krp_staking_contracts_verif)]
+pub mod verif_hooks {
+    pub use crate::bond::execute_bond;
+    pub use crate::convert::{convert_bsei_stsei, convert_stsei_bsei};
+    pub use crate::math::decimal_division;
+    pub use crate::unbond::{
+        execute_withdraw_unbonded, verif_calculate_new_withdraw_rate, verif_process_withdraw_rate,
+    };
+}
